@@ -77,6 +77,19 @@ impl Check for C18 {
                 gen::construct_call(3),
                 CallSpec::Solve { timeout_ns: 1_000_000_000_000, stalls: vec![] },
             ];
+            // every other fixture: the connection radius is EXACTLY the distance between two
+            // alphabet states (such a pair must not be linked: "closer than the radius")
+            if f % 2 == 1 {
+                let geo = geo_for(&scn.space).unwrap();
+                let (i, j) = [(0usize, 1usize), (1, 2), (0, 2), (2, 3), (1, 3), (0, 3)][((f / 2) % 6) as usize];
+                if i < alpha.len() && j < alpha.len() {
+                    let d = geo.d(&alpha[i], &alpha[j]);
+                    if d > 0.0 && d.is_finite() {
+                        scn.planner.connection_radius = d;
+                        scn.params.insert("radius_is_a_distance".into(), 1.0);
+                    }
+                }
+            }
             scn.params.insert("enumerated".into(), 1.0);
             return scn;
         }
@@ -144,6 +157,16 @@ impl Check for C18 {
                     script.push(rng.pick(&alpha).clone());
                 } else if let Some(s) = geo.sample(&mut rng) {
                     script.push(s);
+                }
+            }
+            // a third of the scripted scenarios: the radius is exactly the distance between two
+            // alphabet states
+            if rng.chance(0.33) && alpha.len() >= 2 {
+                let (i, j) = (rng.below(alpha.len() as u64) as usize, rng.below(alpha.len() as u64) as usize);
+                let d = geo.d(&alpha[i], &alpha[j]);
+                if d > 0.0 && d.is_finite() {
+                    scn.planner.connection_radius = d;
+                    scn.params.insert("radius_is_a_distance".into(), 1.0);
                 }
             }
             scn.sampling.script = script;
@@ -296,7 +319,12 @@ impl Check for C18 {
                             let near_thr = (d - r).abs() <= 1e-9 * r.abs();
                             threshold |= near_thr;
                             if linked {
-                                if !(d < r) && !near_thr {
+                                // the planner links on `distance < radius` evaluated in one of the
+                                // two argument orders: a link whose distance is not below the
+                                // radius in EITHER order (exactly the radius, beyond it, NaN) was
+                                // not allowed — no tolerance is needed for this direction
+                                let dm = d.min(g.d(&snap[b].0, &snap[a].0));
+                                if !(dm < r) {
                                     v.push(viol("C18", "C18/link_beyond_radius".into(), format!("milestones {a},{b} are linked at distance {d} >= connection radius {r}")));
                                     break 'calls;
                                 }
